@@ -21,8 +21,11 @@ type pairCandidateSelector interface {
 
 // responseSymmetric implements the transport-address check in RFC 8445 §7.2.5.2.1.
 func responseSymmetric(pendingRequest *bindingRequest, local Candidate, remoteAddr netip.AddrPort) bool {
+	// The response has to come back to the local candidate the request was sent from
+	// (a request recorded without its source is only held to the remote half).
 	return pendingRequest.networkType == local.NetworkType() &&
-		addrPortEqual(pendingRequest.destination, remoteAddr)
+		addrPortEqual(pendingRequest.destination, remoteAddr) &&
+		(pendingRequest.source == nil || pendingRequest.source.Equal(local))
 }
 
 type controllingSelector struct {
